@@ -126,7 +126,7 @@ Definition own_act (frepr : fl -> str) (i : str) (a : act) : Prop :=
   match a with
   | AProject => True
   | AInit sp | ADocSet sp _ _ | ADocRead sp => calc_id frepr sp = i
-  | ALen | ARmWs | APDocSet _ _ | APDocRead => False
+  | ALen | ARmWs | APDocSet _ _ | APDocRead | AEach _ _ | AWithInit _ _ => False
   end.
 
 Lemma pc_actor : forall frepr atomic tag f0 w1 w2 wr i acts acc,
